@@ -30,6 +30,9 @@ type Frame struct {
 	Last     uint32          `json:"last,omitempty"`
 	Debug    int             `json:"debug,omitempty"`
 	Table    uint32          `json:"table,omitempty"`
+	// Bare (H): the header block consists of a dynamic-table-size update only and
+	// decodes to no field at all (empty trailers); Fields is empty.
+	Bare bool `json:"bare,omitempty"`
 }
 
 // Win is a receiver's flow-control behaviour: the initial stream window it
@@ -129,7 +132,20 @@ func genCuts(t *rapid.T) []int {
 	return cuts
 }
 
-type budget struct{ left int }
+// budget is what a sender may still send: left flow-controlled octets in total, at most
+// frame octets per frame (16 384 unless the peer announced more and the sender has
+// processed that before its script).
+type budget struct{ left, frame int }
+
+func frameCap(peer Win, peerMax uint32) int {
+	if earlyAck(peer) && peerMax > 16384 {
+		if peerMax > 65535 {
+			return 65535
+		}
+		return int(peerMax)
+	}
+	return 16384
+}
 
 func (b *budget) data(t *rapid.T, stream uint32, end bool) Frame {
 	f := Frame{T: "D", S: stream, Pad: genPad(t), End: end, Seed: rapid.Uint64Range(0, 1<<16).Draw(t, "dseed")}
@@ -137,14 +153,18 @@ func (b *budget) data(t *rapid.T, stream uint32, end bool) Frame {
 	if rapid.Bool().Draw(t, "duniform") {
 		n = rapid.IntRange(0, 16384).Draw(t, "dsize_u")
 	}
+	if b.frame > 16384 && rapid.Bool().Draw(t, "dlarge") {
+		// the peer announced a larger maximum frame size and this sender knows it
+		n = rapid.SampledFrom([]int{16385, 20000, b.frame, b.frame}).Draw(t, "dsize_l")
+	}
 	over := 0
 	if f.Pad >= 0 {
 		over = 1 + f.Pad
 	}
-	// the whole frame fits the default maximum frame size and what is left of
-	// the sender's (never replenished) 65 535-octet budget
-	if n+over > 16384 {
-		n = 16384 - over
+	// the whole frame fits the maximum frame size the sender may use and what is
+	// left of its (never replenished) 65 535-octet budget
+	if n+over > b.frame {
+		n = b.frame - over
 	}
 	if n+over > b.left {
 		if over > b.left {
@@ -185,7 +205,9 @@ func genBody(t *rapid.T, stream uint32, b *budget, big bool) lane {
 		l = append(l, b.data(t, stream, true))
 	case "trailers":
 		tr := genHeaders(t, stream, nil, true, big)
-		if len(tr.Fields) == 0 || rapid.Bool().Draw(t, "trailer_named") {
+		if rapid.IntRange(0, 7).Draw(t, "bare_trailers") == 0 {
+			tr.Fields, tr.Bare, tr.Cuts = nil, true, nil
+		} else if len(tr.Fields) == 0 || rapid.Bool().Draw(t, "trailer_named") {
 			tr.Fields = append(tr.Fields, h2kit.Field{N: "x-trail", V: fmt.Sprintf("t%d", rapid.IntRange(0, 999).Draw(t, "tv"))})
 		}
 		l = append(l, tr)
@@ -333,7 +355,8 @@ func genCase(t *rapid.T) Case {
 	}
 	k := rapid.IntRange(1, kit.N(4, 8)).Draw(t, "streams")
 	big := rapid.IntRange(0, 7).Draw(t, "big") == 0
-	cb, sb := &budget{left: 65535}, &budget{left: 65535}
+	cb := &budget{left: 65535, frame: frameCap(c.SWin, c.SMax)}
+	sb := &budget{left: 65535, frame: frameCap(c.CWin, c.CMax)}
 	var cl, sl []lane
 	promised := uint32(0)
 	anyPush := false
@@ -416,6 +439,12 @@ func earlyAck(w Win) bool { return w.Init == 65535 }
 // blocks, and at most one HEADER_TABLE_SIZE setting per direction (the relay's
 // encoder toward the sender of that setting then signals one update).
 func tame(frames []Frame, tableAnnounced bool) []Frame {
+	grows := false
+	for _, f := range frames {
+		if f.T == "T" && f.Table > 4096 {
+			grows = true
+		}
+	}
 	var out []Frame
 	resized, hts := false, tableAnnounced
 	for _, f := range frames {
@@ -427,6 +456,11 @@ func tame(frames []Frame, tableAnnounced bool) []Frame {
 			resized = true
 		case "H", "PP":
 			resized = false
+			if f.Bare && grows {
+				// the bare block resets the peer's table to 4096, which would evict
+				// entries a larger encoder table still refers to
+				f.Bare, f.Fields = false, []h2kit.Field{{N: "x-trail", V: "0"}}
+			}
 		case "S":
 			var keep []h2kit.Setting
 			for _, s := range f.Settings {
